@@ -9,6 +9,7 @@ import pandas as pd
 from harness.common import EPS_W, bt, dates, frame
 
 BOUNDS = {
+    'added': 'WeighERC / WeighMeanVar settings handed to the stubbed optimiser and its result published; WeighRandomly totals 0 and -0.5 with bounds straddling zero',
     'quick': '3-security tree with symbolic positions and capital (live weights symbolic); symbolic target weights in [-1,1] / [0,1]; limits from grids; selection a '
              'solver-chosen subset; WeighRandomly n<=3 with bounds/sum grids; TargetVol and PTE_Rebalance on 2 assets with symbolic covariance (s11,s22 in '
              '[1e-6,1e-2], |s12| <= sqrt(s11 s22)), degree <= 6; PTE_Rebalance also with held names and target columns differing (3x3 block-diagonal covariance); estimation window of both algos '
